@@ -23,7 +23,7 @@ CLAIMED = {
     "C06": dict(engine="seqx+schx", technique=SEQ + " plus " + SCH + "; oracle: ASYNC_CANCEL requests seen by the kernel vs. drop history, tracking allocator for leaks/double frees",
                 text="All histories with drops at every point of the life cycle of single-shot, two-step and multishot operations (alone and in pairs, SQ full and not full), both outcomes of the cancel race; every ASYNC_CANCEL must target exactly a dropped in-flight operation, and after the epilogue every allocation made by a10 must have been freed exactly once.",
                 ref="6/C06"),
-    "C07": dict(technique=SEQ + "; oracle: simulated kernel's descriptor table plus close(2) interposer",
+    "C07": dict(engine="seqx+casex", technique=SEQ + " plus a case family for descriptor conversions (casex); oracle: simulated kernel's descriptor table plus close(2) interposer",
                 text="All histories of descriptor-creating operations (open, O_TMPFILE open, socket, accept and multishot accept on regular and on direct listening descriptors, pipe, to_direct; regular and direct), drops of the futures, of the returned AsyncFds (queue full and not full), AsyncFd::close, and standard stream handles; at the end every descriptor the kernel issued must have been closed exactly once in the way matching its kind, and fds 0-2 never; descriptors are wrapped with the kind that was asked for (incl. open_temp_file); close(2) answering EINTR on the synchronous path; Signals::to_direct_descriptor (the signalfd it replaces).",
                 ref="6/C07"),
     "C08": dict(technique=SEQ + " plus " + SCH + "; oracle: multiset conservation of pool buffer ids across kernel ring / pending completions / live ReadBufs",
@@ -35,9 +35,9 @@ CLAIMED = {
     "C10": dict(technique="explicit-state exploration over every sequence of kernel answers (short transfer sizes incl. 0) for each composite I/O case on the real code (seqx); byte-stream reference oracle",
                 text="For write_all/write_all_vectored/send_all/send_all_vectored (plain, extract, positional, flags, zero-copy) over every buffer shape with 1-3 (thorough 1-4, plus 5 and 8) buffers of length 0-2 (0-3) incl. empty buffers in every position, and for read_n/read_n_vectored/recv_n/recv_n_vectored over Vec, pre-filled Vec, LimitedBuf and pool ReadBuf targets and every n: every sequence of accepted/delivered counts the kernel may answer is executed; each request must offer exactly the bytes not yet written at the right offset with the caller's flags and opcode, success only after everything, WriteZero/UnexpectedEof exactly when the kernel answers 0.",
                 ref="6/C10"),
-    "C11": dict(technique=SCH + "; oracle: a poller blocked in the kernel forever after a completed wake() = lost wake-up",
+    "C11": dict(technique=SCH + "; oracle: a poller blocked in the kernel forever after a completed wake() = lost wake-up; plus bounded exhaustive enumeration of sequential wake-then-poll cases (casex)",
                 text="Poller thread (poll(None), poll(0);poll(None), poll(None);poll(None), with or without completions already published) and 1-2 waker threads on default, kernel-thread, single-issuer and defer-taskrun rings, all schedules up to the preemption bound including the sq-thread going idle; wake() after the Ring is dropped, and wake() racing with the Ring being dropped on another thread.",
-                ref="6/C11", engine="schx"),
+                ref="6/C11", engine="schx+casex"),
     "C12": dict(engine="seqx+schx", technique="explicit-state exploration of every drop order of the objects of each scenario on the real code (seqx) plus " + SCH + " with the Ring dropped on its own thread; oracles: mmap/munmap/close interposer, simulated kernel descriptor table, tracking allocator",
                 text="~140 scenarios (queue sizes 8, 2 and 1; operations not started / queued / in flight / abandoned / finished-unpolled / mid-stream, queue clone, regular and direct AsyncFd, pool, owned and unassigned ReadBuf; kernel cancelling everything, failing to cancel, cancelling nothing) x every permutation of dropping those objects that safe Rust admits; checked: no panic/crash, no use of freed memory, the three ring mappings unmapped exactly once with their original lengths before the ring fd is closed, queued clean-up requests submitted, every descriptor closed once, no allocation left. Threads: the Ring is dropped on its own thread while other threads drop a regular / direct AsyncFd, release a ReadBuf, drop the pool, call wake(), drop a queue clone, poll a fresh operation for the first time, or drop a queued / in-flight operation (default and kernel-thread rings, the sq-thread as an actor that may lag arbitrarily), every schedule up to the preemption bound, same oracles.",
                 ref="6/C12"),
@@ -45,9 +45,9 @@ CLAIMED = {
                 text="Part A (simulated kernel): 43 operation shapes, the second submission of every composite operation after a short first result (flags, zero-copy, advanced offsets), builder settings of splice, send_to, recv_from_vectored, multishot_recv, pipe, the statx mask and waitid options; each issued on a regular and on a direct descriptor; every field of the two submissions must agree except the descriptor field/flag, and must equal an independent ABI table; builder settings made before the first poll (offsets incl. 2^40 and 2^64-2, every send/recv flag, open options x mode x kind, advice, allocate mode, truncate length, shutdown mode ...) must be reflected. Part B (real kernel): 24 scenario families x {regular, direct} (read/write/vectored at every offset x length, open options, path operations, statx with every Metadata accessor on every descriptor type, truncate/allocate modes/advise/madvise/fsync, pool reads, TCP/UDP/Unix sockets with names, every socket option type, recv flags and the composite read_n/recv_n/write_all/send_all families against slow peers, multishot accept/recv/read, pipes, splice, waitid with every WaitInfo accessor, limited buffers, the sync_* helpers, process signals through Signals, descriptor conversions): the a10 call on a real ring and the libc call on an identical fixture are compared on result, failure, bytes at offsets, file position, stat fields, addresses and option values.",
                 ref="6/C13", category="exploration", engine="casex",
                 note="Trusted base: the Linux kernel of this sandbox (6.18) and libc as the oracle for part B; the ABI table in harness/src/c13.rs for part A. Exhaustive over the stated argument alphabets only."),
-    "C14": dict(technique="bounded exhaustive enumeration of inputs against an independent reference (casex)",
+    "C14": dict(technique="bounded exhaustive enumeration of inputs against an independent reference (casex), and the pointer/length law on every request of the composite-operation world explored under all kernel answers (seqx)",
                 text="Every provided Buf/BufMut/BufSlice/BufMutSlice implementation and wrapper (Vec, Box<[u8]>, String, Box<str>, static slices, both Cows, Arc<[u8]>, Arc<str>, StaticBuf, arrays and heterogeneous tuples of arity 1..8, LimitedBuf around each) over capacities {0,1,2,3,8,64}, fill levels, 12 limits incl. 2^32-1, 2^32, 2^32+1, 2^32+5 and usize::MAX, limits on and inside every member boundary, and every n for set_init, plus extend_from_slice with fewer, exactly as many and more bytes than fit: exposed pointer/length pairs inside the buffer's own memory, lengths/spare capacities agree with them, set_init(n) appends exactly the n bytes written front to back, limit never exceeded and decreased by n. Also pool ReadBufs at every fill level, static slices of 2^32-1 .. 5 GiB bytes over a never-touched mapping, and the crate-private skipping / counting wrappers through every request of the composite-operation world.",
-                ref="6/C14", category="exploration", engine="casex",
+                ref="6/C14", category="exploration", engine="casex+seqx",
                 note="Pure functions; exhaustive over the stated alphabets. The crate-private SkipBuf/ReadNBuf wrappers are covered through C10's submissions."),
     "C15": dict(technique="explicit-state exploration of edit sequences on the real ReadBuf against a Vec<u8> reference (seqx, merged by contents)",
                 text="Pool of 4 slots, buffer sizes 1,2,4 (thorough 8), every initial fill, slots 0/1/3, all edit sequences of length 3 (thorough 4) over truncate, clear, remove with every range form and bounds {0..cap+1, usize::MAX-1, usize::MAX}, set_len, extend_from_slice, spare_capacity_mut+set_len, a second kernel read, as_mut_slice writes, then release: same contents/length/panics as a capacity-guarded Vec, no byte outside the slot touched (canary slab), the released ring entry is the original slot.",
@@ -83,7 +83,7 @@ m = {
     "engines": [
         {"name": "schx", "path": "harness/src/schx.rs", "serves_properties": [p for p in sorted(CLAIMED) if "schx" in CLAIMED[p].get("engine","seqx")], "kind_free_text": "stateless preemption-bounded DFS over schedules of real OS threads (baton passing at a10's lock/try_lock/shared-word hooks and simk syscall boundaries), kernel actors scheduled like threads, deadlock detection"},
         {"name": "seqx", "path": "harness/src/seqx.rs", "serves_properties": [p for p in sorted(CLAIMED) if "seqx" in CLAIMED[p].get("engine","seqx")], "kind_free_text": "explicit-state DFS over action histories of the real a10 code against the simulated kernel simk; nodes re-created by replay; state-key merging beyond d_all; deviation bounded"},
-        {"name": "casex", "path": "harness/src/casex.rs", "serves_properties": [p for p in sorted(CLAIMED) if CLAIMED[p].get("engine","seqx") == "casex"], "kind_free_text": "flat bounded-exhaustive enumeration of cases (inputs, configurations x kernel answers, record sequences x batchings), each executed on the real code; shares the driver, confirmation-by-replay and evidence machinery with seqx"},
+        {"name": "casex", "path": "harness/src/casex.rs", "serves_properties": [p for p in sorted(CLAIMED) if "casex" in CLAIMED[p].get("engine","seqx")], "kind_free_text": "flat bounded-exhaustive enumeration of cases (inputs, configurations x kernel answers, record sequences x batchings), each executed on the real code; shares the driver, confirmation-by-replay and evidence machinery with seqx"},
         {"name": "simk", "path": "harness/src/simk.rs", "serves_properties": sorted(CLAIMED), "kind_free_text": "in-process simulated io_uring kernel (memfd rings, explorer-controlled completions)"},
     ],
     "checks": [],
